@@ -23,3 +23,5 @@ def cases(rng, tier):
         st = rng.getstate()
         q = sc.rand_history(rng, rng.randint(4, 16), W_QUERY)
         yield ("sets_run", [ops + q], "pair_queries")
+    for _ in range(8 if tier == "quick" else 300):
+        yield ("sets_run", [sc.big_history(rng)], "big_sets")
